@@ -2,6 +2,8 @@
 mod verif_kani_strings {
     use super::*;
     use winnow::stream::ContainsToken;
+    #[allow(unused_imports)]
+    use winnow::stream::Stream as _VerifStream;
     include!(concat!(env!("TOML_VERIF_KANI"), "/spec/oracles.rs"));
 
     #[kani::proof]
@@ -44,5 +46,84 @@ mod verif_kani_strings {
         assert!(ML_LITERAL_STRING_DELIM.len() == 3 && ML_LITERAL_STRING_DELIM[0] == 0x27
             && ML_LITERAL_STRING_DELIM[1] == 0x27 && ML_LITERAL_STRING_DELIM[2] == 0x27);
         kani::cover!(true);
+    }
+
+    // ------------------------------------------------------------------ K5: escapes
+    fn stub_format(_args: core::fmt::Arguments<'_>) -> String {
+        String::new()
+    }
+
+    fn input_of(bytes: &[u8]) -> Option<Input<'_>> {
+        match core::str::from_utf8(bytes) {
+            Ok(s) => Some(new_input(s)),
+            Err(_) => None,
+        }
+    }
+
+    // escape-seq-char on one byte other than `u` / `U` (those are k5_hexescape*):
+    // Ok(O-esc value) for the seven letters, a cut error otherwise; exactly one byte consumed
+    #[kani::proof]
+    #[kani::unwind(12)]
+    #[kani::stub(alloc::fmt::format, stub_format)]
+    fn k5_escape_seq_char() {
+        let b: u8 = kani::any();
+        kani::assume(b != b'u' && b != b'U');
+        let buf = [b, b'x'];
+        let mut input = match input_of(&buf) {
+            Some(i) => i,
+            None => return,
+        };
+        let r = escape_seq_char(&mut input);
+        let want = o_esc::escape_value(b);
+        match (&r, want) {
+            (Ok(c), Some(w)) => {
+                assert!(*c == w, "escape decodes to the wrong character");
+                assert!(input.eof_offset() == 1, "escape consumed the wrong number of bytes");
+            }
+            (Err(winnow::error::ErrMode::Cut(_)), None) => {}
+            (Ok(_), None) => assert!(false, "an undefined escape letter is accepted"),
+            (Err(_), Some(_)) => assert!(false, "a defined escape letter is rejected"),
+            (Err(_), None) => assert!(false, "an undefined escape is not a hard error"),
+        }
+        kani::cover!(r.is_ok());
+        kani::cover!(r.is_err());
+        core::mem::forget(r);
+    }
+
+    fn hexescape_check<const N: usize, const M: usize>() {
+        // M == N + 1: N candidate digits and one byte of lookahead
+        let buf: [u8; M] = kani::any();
+        let mut input = match input_of(&buf) {
+            Some(i) => i,
+            None => return,
+        };
+        let r = hexescape::<N>(&mut input);
+        let want = o_esc::hex_scalar(&buf[..N]);
+        match (&r, want) {
+            (Ok(c), Some(w)) => {
+                assert!(*c as u32 == w, "hex escape decodes to the wrong scalar value");
+                assert!(input.eof_offset() == M - N, "hex escape consumed the wrong number of bytes");
+            }
+            (Err(_), None) => {}
+            (Ok(_), None) => assert!(false, "hex escape accepted: not N hex digits, a surrogate or beyond 10FFFF"),
+            (Err(_), Some(_)) => assert!(false, "a valid hex escape is rejected"),
+        }
+        kani::cover!(r.is_ok());
+        kani::cover!(r.is_err());
+        core::mem::forget(r);
+    }
+
+    #[kani::proof]
+    #[kani::unwind(12)]
+    #[kani::stub(alloc::fmt::format, stub_format)]
+    fn k5_hexescape4() {
+        hexescape_check::<4, 5>();
+    }
+
+    #[kani::proof]
+    #[kani::unwind(16)]
+    #[kani::stub(alloc::fmt::format, stub_format)]
+    fn k5_hexescape8() {
+        hexescape_check::<8, 9>();
     }
 }
